@@ -46,7 +46,7 @@ def gen_program(rng, n=None, p_sw=0.2, p_oneof=0.25, p_rec=0.0, p_fail=0.15, p_n
                     pool = [m for m in range(1, i) if m != d and m not in used and not (excl and m in candset)]
                     cs = rng.sample(pool, min(len(pool), rng.choice([1, 2, 3])))
                     if cs:
-                        params.append([pn, ['sw', d, [['L%d' % j, m] for j, m in enumerate(cs)]]])
+                        params.append([pn, ['sw', d, [[('' if j == 0 and rng.random() < 0.15 else 'L%d' % j), m] for j, m in enumerate(cs)]]])
                         continue
                 elif r < p_sw + p_oneof:
                     nz2 = [m for m in nz if not (excl and m in refd)]
@@ -80,6 +80,25 @@ def gen_program(rng, n=None, p_sw=0.2, p_oneof=0.25, p_rec=0.0, p_fail=0.15, p_n
         if rng.random() < p_rec:
             if not _add_recurrent(rng, nodes, closed):
                 continue
+            if retry and rng.random() < 0.5:
+                # exercise retry/default on the nodes of the recurrent subgraph itself (start node included)
+                for nd2 in nodes:
+                    for _, mk in nd2['params']:
+                        if mk[0] == 'rec':
+                            P = path_nodes(nodes, mk[1], mk[2])
+                            for x in P:
+                                if x != mk[2] and rng.random() < 0.5 and x != 0:
+                                    add_retry(rng, nodes[x])
+                                    if rng.random() < 0.6:
+                                        nodes[x]['use_default'] = True
+                            # ... and on readers of inner nodes that sit outside the subgraph
+                            for x in range(1, len(nodes)):
+                                if x not in P and any(m in P and m != mk[2] for _, m2 in nodes[x]['params'] for m in ps.mark_nodes(m2)):
+                                    if rng.random() < 0.7:
+                                        nodes[x]['attempts'] = rng.choice([2, 3])
+                                        nodes[x]['delay'] = rng.choice([0, 0.3])
+                                        nodes[x]['exceptions'] = None
+                                        nodes[x]['fails'] = ['EA', None]
         if retry:
             for nd in nodes[1:]:
                 if rng.random() < retry:
@@ -206,3 +225,66 @@ def features(spec):
         if nodes[i]['beh'] != 'ok':
             f.add('beh')
     return f
+
+
+# ---- hand-made shapes for interactions the random grower reaches too rarely ---------------------------------
+def template_program(rng, name=None):
+    I = lambda m: ['in', m]  # noqa: E731
+    name = name or rng.choice(sorted(TEMPLATES))
+    return dict(nodes=TEMPLATES[name](rng, I))
+
+
+def _t_retry_outside_reader(rng, I):
+    mx = rng.choice([1, 2, 3])
+    k = rng.randint(1, mx)
+    return [N(), N([['a', I(0)]]), N([['a', I(1)]]), N([['a', I(2)]], beh=['recur', k]),
+            N([['m', I(2)]], attempts=rng.choice([2, 3]), delay=rng.choice([0, 0.3]), fails=['EA', None],
+              use_default=rng.random() < 0.3),
+            N([['r', ['rec', 1, 3, mx]], ['x', I(4)]])]
+
+
+def _t_default_on_start(rng, I):
+    mx = rng.choice([1, 2])
+    return [N(), N([['a', I(0)]], attempts=rng.choice([1, 2]), fails=[None, 'EA'] if rng.random() < 0.5 else ['EA'],
+                   use_default=True, delay=0),
+            N([['a', I(1)]], beh=['recur', rng.randint(1, mx)]),
+            N([['r', ['rec', 1, 2, mx]]])]
+
+
+def _t_shared_case_in_flight(rng, I):
+    # the selected case is also a plain input of the consumer (or of the output) and may still run when the switch resolves
+    return [N(), N([['a', I(0)]], beh=['str', rng.choice(['L0', 'L1', 'UNKNOWN', 'L0'])]), N([['a', I(0)]]), N([['a', I(0)]]),
+            N([['v', ['sw', 1, [['L0', 2], ['L1', 3]]]], ['w', I(2)]]), N([['a', I(4)], ['b', I(3)]])]
+
+
+def _t_shared_between_candidates(rng, I):
+    f = rng.choice([['EA'], [], ['EC']])
+    return [N(), N([['a', I(0)]]), N([['a', I(0)]], fails=f), N([['a', I(2)]]), N([['s', I(1)], ['x', I(3)]]),
+            N([['s', I(1)]], fails=rng.choice([[], [], ['EB']])), N([['v', ['oneof', [4, 5]]]]), N([['a', I(6)], ['b', I(1)]])]
+
+
+def _t_nested_oneof(rng, I):
+    f = lambda: rng.choice([['EA'], [], []])  # noqa: E731
+    return [N(), N([['a', I(0)]], fails=f()), N([['a', I(0)]], fails=f()), N([['v', ['oneof', [1, 2]]], ['z', I(0)]]),
+            N([['a', I(3)]], fails=f()), N([['a', I(3)]], fails=f()), N([['v', ['oneof', [4, 5]]], ['y', I(3)]]),
+            N([['a', I(6)]])]
+
+
+def _t_two_scopes_one_node(rng, I):
+    # node 2 is reached from the main DAG, from a switch branch and from a one-of candidate
+    return [N(), N([['a', I(0)]], beh=['str', 'L0']), N([['a', I(0)]], fails=rng.choice([[], [], ['EA']])),
+            N([['a', I(2)]]), N([['a', I(2)]], fails=rng.choice([[], ['EB']])),
+            N([['v', ['sw', 1, [['L0', 2], ['L1', 3]]]], ['w', ['oneof', [4, 3]]], ['u', I(2)]])]
+
+
+def _t_rec_two_consumers(rng, I):
+    mx = rng.choice([1, 2, 3])
+    return [N(), N([['a', I(0)]]), N([['a', I(1)]]), N([['a', I(2)]], beh=['recur', rng.randint(0, mx + 1)],
+                                                       use_default=rng.random() < 0.5),
+            N([['r', ['rec', 1, 3, mx]]]), N([['r', I(3)], ['s', I(0)]]), N([['a', I(4)], ['b', I(5)]])]
+
+
+TEMPLATES = {'retry_outside_reader': _t_retry_outside_reader, 'default_on_start': _t_default_on_start,
+             'shared_case_in_flight': _t_shared_case_in_flight, 'shared_between_candidates': _t_shared_between_candidates,
+             'nested_oneof': _t_nested_oneof, 'two_scopes_one_node': _t_two_scopes_one_node,
+             'rec_two_consumers': _t_rec_two_consumers}
